@@ -3,6 +3,7 @@ package main
 import (
 	"fmt"
 	"go/token"
+	"strings"
 
 	"golang.org/x/tools/go/ssa"
 )
@@ -10,10 +11,11 @@ import (
 func init() { registry["C18"] = checkC18 }
 
 func checkC18(c *Ctx, r *Report) {
-	r.Explain = "Decides structural necessary conditions of 'resync equals evaluating the new sync function from scratch': (R1) a resync run that completed reports success only after principal invalidation (or principal sequence regeneration) ran and succeeded, the invalidation visits every user (roles and channels) and every role, and storage errors on that path propagate; (R2) the per-document resync applies the same trio as the write path — channel assignment, user access grants and role grants — to the outputs of the sync-function evaluation, evaluates every leaf revision, and applies grants only for the current revision; (R3) a rejected evaluation contributes nothing: on the failure edge of the evaluation the values reaching channel assignment, access and role grants are all nil (resync), and the write path returns before applying any of them. Not decided: differential equivalence with a freshly built database, idempotence of a second run, races with concurrent writes."
+	r.Explain = "Decides structural necessary conditions of 'resync equals evaluating the new sync function from scratch': (R1) a resync run that completed reports success only after principal invalidation (or principal sequence regeneration) ran and succeeded, the invalidation visits every user (roles and channels) and every role, and storage errors on that path propagate; (R2) the per-document resync applies the same trio as the write path — channel assignment, user access grants and role grants — to the outputs of the sync-function evaluation, evaluates every leaf revision, and applies grants only for the current revision; (R3) a rejected evaluation contributes nothing: on the failure edge of the evaluation the values reaching channel assignment, access and role grants are all nil (resync), and the write path returns before applying any of them.; (R4) role invalidation is decided by the nil-ness (already invalid) of the computed role set, never by its length. Not decided: differential equivalence with a freshly built database, idempotence of a second run, races with concurrent writes."
 	c18R1(c, r)
 	checkInvalidationPersisted(c, r, "C18-R1")
 	c18R2R3(c, r)
+	c18R4(c, r)
 }
 
 func c18R1(c *Ctx, r *Report) {
@@ -396,5 +398,42 @@ func nilOnFailure(fn *ssa.Function, arg ssa.Value, nilEdges []Edge, isRes func(s
 			return true, ""
 		}
 		return false, "unrecognised flow"
+	}
+}
+
+// C18-R4: end-of-resync invalidation marks a user's computed roles as invalid unless they are ALREADY invalid (a nil role set). An
+// empty-but-computed set must be invalidated too: the new sync function may grant the user's first role. Both invalidation entry
+// points decide on the nil-ness of RoleNames(), never on its length.
+func c18R4(c *Ctx, r *Report) {
+	r.Rule("C18-R4", "E2 pathrules (sibling agreement)", "every role-invalidation marker (SetRoleInvalSeq with a non-zero sequence) in the authenticator's Invalidate… functions is placed on the 'role set is not nil' edge of a nil test of RoleNames()", 2)
+	n := 0
+	for _, name := range []string{"(*auth.Authenticator).InvalidateRoles", "(*auth.Authenticator).InvalidateRolesAndChannels"} {
+		top := c.Func(name)
+		if top == nil {
+			r.Fail("C18-R4", "anchor "+name, "-", "function not found")
+			continue
+		}
+		for _, fn := range append([]*ssa.Function{top}, c15Lits(top)...) {
+			sets := c.Calls(fn, false, func(nm string) bool { return strings.HasSuffix(nm, ".SetRoleInvalSeq") })
+			if len(sets) == 0 {
+				continue
+			}
+			var notNil []Edge
+			for _, rn := range c.Calls(fn, false, func(nm string) bool { return strings.HasSuffix(nm, ".RoleNames") }) {
+				rv := valueOfCall(rn)
+				pos, _ := EdgesOnValue(fn, func(v ssa.Value) bool { return v == rv })
+				// EdgesOnValue on a nil test: pos = value is non-nil
+				notNil = append(notNil, pos...)
+			}
+			for _, st := range sets {
+				n++
+				ok := len(notNil) > 0 && DominatedBy(fn, st, NewAvoid().AddEdge(notNil...))
+				r.Check("C18-R4", fmt.Sprintf("fn=%s role-invalidation only-skipped-if=roles-already-invalid(nil)", name), c.Pos(st.Pos()), ok,
+					"decided by the nil-ness of the computed role set", "the role invalidation is not decided by a nil test of RoleNames(): a user whose computed role set is empty (but valid) is never marked invalid, so a role() grant introduced by the new sync function never reaches a user who had no roles")
+			}
+		}
+	}
+	if n < 2 {
+		r.Fail("C18-R4", "role invalidation markers", "-", fmt.Sprintf("found %d role-invalidation sites in InvalidateRoles / InvalidateRolesAndChannels", n))
 	}
 }
